@@ -73,6 +73,10 @@ def warmup(tier: str) -> None:
     # systems (named bodies) cannot.
     U["sys_real"] = {k: System.from_mu(float(v.mu)) for k, v in U["sys_twin"].items()}
     _TMPDIR = tempfile.mkdtemp(prefix="verif_c20_")
+    import atexit
+    import shutil
+    _owner = os.getpid()
+    atexit.register(lambda: shutil.rmtree(_TMPDIR, ignore_errors=True) if os.getpid() == _owner else None)   # scratch files of save/load operations
     from checks import c20_orbit, c20_cm, c20_manifold, c20_torus
     c20_orbit.warmup(U, tier)
     c20_cm.warmup(U, tier)
